@@ -227,14 +227,18 @@ OVERRIDES = {
          "Level therefore exploration."),
    note="Known finding KF05 (piecewise-parsed schemas keep bare references) is excluded by predicate. Data values have no object identity in the logic.",
    technique="bounded differential checking of the three schema forms; contract-based deductive verification of the already-parsed path"),
- "C20": dict(cat="exploration", design="0.3, 0.12, 7/C20",
-   text=("Bounded stand-in (labelled bounded, never counted as proved): counts, validation, binary and container round trip of generated "
-         "values over seeded random states for curated, small, logical-type and non-record schemas. Deductive piece only: for schemas "
-         "built from primitives, fixed, enum, non-empty unions and references to these, gen_data returns a value that validates (VALID) "
-         "whatever the random source returns within its documented ranges (random.* as assumed externals: ranges and kinds only). "
-         "Arrays, maps and records are not under contract. Level therefore exploration."),
-   note="Known finding KF20 (no termination for a type that contains itself through an array or map) is excluded by predicate.",
-   technique="bounded run-time checking of generated values; contract-based deductive verification of the leaf cases of the generator"),
+ "C20": dict(cat="other", design="0.3, 0.12, 7/C20",
+   text=("Deductive: for every parsed schema without logical types (unions non-empty, field names of a record pairwise distinct) "
+         "gen_data returns a value that validates against the schema (VALID, the predicate the validators are verified against), "
+         "whatever the random source returns within its documented ranges: primitives, fixed (exact size), enum (a declared symbol), "
+         "unions (any branch), references, arrays and maps of ten generated items / entries (random keys may repeat and overwrite), "
+         "records with every field generated. All obligations discharged, including 16 small inductive lemmas about list and "
+         "dictionary building. Not deductive: logical types, the counts of generate_one / generate_many (parse_schema first), "
+         "acceptance by the writers and the read-back, recursive types -- bounded stand-in; hence 'other'."),
+   note=("Trusted: random.randint / random / getrandbits / choices as assumed externals (ranges and kinds only), int.to_bytes length axiom "
+         "(cross-checked by ./vcheck axioms), z3, pyvc translator. Known finding KF20 (no termination for a type that contains itself "
+         "through an array or map; the contract is partial correctness) is excluded by predicate in the bounded part."),
+   technique="contract-based deductive verification (right-unfolded invariants for list / dictionary comprehensions, inductive lemmas instantiated at loop, call and return points); bounded run-time checking of generated values"),
  "C13": dict(cat="other", design="0.3, 0.10, 7/C13",
    text=("Deductive: _to_parsing_canonical_form (the recursive writer behind to_parsing_canonical_form) appends exactly PCF(schema) "
          "for every parsed schema -- PCF being the Avro specification's transformation written as specification functions "
